@@ -304,4 +304,26 @@ theorem count_rounds {α : Type} [BEq α] (a : α) (n : Nat) (one : List α) :
 theorem norm_hrec_count (v : Nat) (e : Upd) : (norm (.hrec v)).count e = if Upd.hrec v = e then 1 else 0 := by
   simp [norm, List.count_singleton]
 
+/-! ### the `FilterLayer` builder -/
+
+theorem FilterCfg.run_nil (c : FilterCfg) : c.run [] = c := rfl
+
+theorem FilterCfg.run_cons (c : FilterCfg) (o : FOp) (ops : List FOp) : c.run (o :: ops) = (c.step o).run ops := rfl
+
+theorem FilterCfg.run_append (c : FilterCfg) (a b : List FOp) : c.run (a ++ b) = (c.run a).run b := by
+  simp [FilterCfg.run, List.foldl_append]
+
+theorem cfgOps_append (a b : List LStep) : cfgOps (a ++ b) = cfgOps a ++ cfgOps b := by
+  induction a with
+  | nil => rfl
+  | cons st rest ih => cases st <;> simp [cfgOps, ih]
+
+theorem Handle.applySeq_cons (h : Handle) (u : Upd) (us : List Upd) :
+    h.applySeq (u :: us) = h.apply u ++ h.applySeq us := by
+  simp [Handle.applySeq]
+
+theorem Handle.applySeq_append (h : Handle) (us vs : List Upd) :
+    h.applySeq (us ++ vs) = h.applySeq us ++ h.applySeq vs := by
+  simp [Handle.applySeq]
+
 end MetricsVerif.Layers
